@@ -93,3 +93,25 @@ package rangeproof
 //@   ensures nowrap: err == nil ==> (p.Sign == 1 ==> result0.mCorrect.Rhs[1].Power == 0 - p.A) && (p.Sign == 0 - 1 ==> result0.mCorrect.Rhs[1].Power == p.A)
 //@   modifies nothing
 //@   mustfail canary: err != nil
+
+//@ # ---- verification side (C12, C08) ----
+//@ pred rpstruct(s, p) := len(p.Cs) == len(s.cRep) && len(p.DResponses) == len(s.cRep) && len(p.VResponses) == len(s.cRep) && p.V5Response != nil && p.MResponse != nil && (forall i in 0..len(s.cRep) :: p.Cs[i] != nil && p.DResponses[i] != nil && p.VResponses[i] != nil)
+
+//@ func (*ProofStructure).VerifyProofStructure
+//@   property C12 C08
+//@   requires s != nil && p != nil && g != nil && g.N != nil && g.Params != nil
+//@   requires g.Params.Lm <= 65536 && g.Params.Lh <= 65536 && g.Params.Lstatzk <= 65536 && s.ld <= 65536
+//@   ensures ok: result ==> rpstruct(s, p)
+//@   ensures msize: result ==> bitlen(val(p.MResponse)) <= g.Params.Lm + g.Params.Lh + g.Params.Lstatzk + 1
+//@   ensures v5size: result ==> bitlen(val(p.V5Response)) <= g.Params.Lm + s.ld + 2 + g.Params.Lh + g.Params.Lstatzk + 1
+//@   ensures sizes: result ==> forall i in 0..len(s.cRep) :: bitlen(val(p.Cs[i])) <= bitlen(val(g.N)) && bitlen(val(p.DResponses[i])) <= s.ld + g.Params.Lh + g.Params.Lstatzk + 1 && bitlen(val(p.VResponses[i])) <= g.Params.Lm + g.Params.Lh + g.Params.Lstatzk + 1
+//@   modifies nothing
+//@   loop 0 invariant 0 <= $i && $i <= len(s.cRep) && forall j in 0..$i :: p.Cs[j] != nil && p.DResponses[j] != nil && p.VResponses[j] != nil && bitlen(val(p.Cs[j])) <= bitlen(val(g.N)) && bitlen(val(p.DResponses[j])) <= s.ld + g.Params.Lh + g.Params.Lstatzk + 1 && bitlen(val(p.VResponses[j])) <= g.Params.Lm + g.Params.Lh + g.Params.Lstatzk + 1
+//@   mustfail canary: !result
+
+//@ func (*ProofStructure).CommitmentsFromProof
+//@   property C12 C08
+//@   trusted string-keyed dynamic lookups through zkproof.BaseMerge / ProofMerge are not yet within the verified subset; the precondition lists what the callee chain dereferences
+//@   requires s != nil && p != nil && g != nil && g.N != nil && val(g.N) > 1 && challenge != nil && rpstruct(s, p) && 0 <= s.index && s.index < len(g.R)
+//@   ensures shape: len(result) == 1 + len(s.cRep) && fresh(result) && forall i in 0..len(result) :: result[i] != nil && fresh(result[i])
+//@   modifies nothing
